@@ -73,6 +73,13 @@ def run(ctx):
                 diffs.setdefault(k, []).append(r["hashseed"])
     probes = {tuple(r["set_order_probe"]) for r in results}
     violations, broken = [], []
+    # the same input run again in one process must give the same result as its first run
+    within = sorted({k for r in results for k, v in r["digests"].items() if str(v).startswith("differs")})
+    for k in within[:3]:
+        violations.append({"signature": {"cause": "result-depends-on-process-history", "kind": k[0]},
+                           "what": f"input {k}: restructuring it again in the same process gives a different result ({base.get(k)})",
+                           "payload": {"input": k, "digests": base.get(k), "tier": ctx["tier"], "seed": ctx["seed"],
+                                       "replay": "PYTHONHASHSEED=0 /venv/bin/python harness/seed_worker.py /repo <tier> <seed>"}})
     for k, seeds in sorted(diffs.items())[:5]:
         violations.append({"signature": {"cause": "hash-seed-dependent-result", "kind": k[0]},
                            "what": f"input {k}: result differs between PYTHONHASHSEED=0 and {seeds[:3]}",
